@@ -169,6 +169,17 @@ def main():
                     h["fault"] = {"role": "qmail-send", "call": call, "k": k, "what": "fail %d" % errno.EIO, "obj": obj}
                     h["id"] = "fault-seq-%s-%s-%d" % (call, obj, k)
                     hists.append(h)
+        # a restart with deferred recipients on both channels, during which one stat() of the start-up scan fails (the message is
+        # put aside and looked at again two minutes later): nothing may be scheduled twice
+        for obj in ("info", "local", "remote"):
+            for k in (1, 2, 3):
+                fi += 1
+                rid = 4900 + fi
+                m_ = [{"body": b"Subject: s\n\nS\n", "sender": b"ss%d@origin.test" % rid, "rcpts": [b"s%dl1@local.test" % rid, b"s%dr1@remote.test" % rid, b"s%dl2@local.test" % rid]}]
+                oc_ = {"s%dl1@local.test" % rid: "ZZK", "s%dr1@remote.test" % rid: "ZZK", "s%dl2@local.test" % rid: "ZK", "ss%d@origin.test" % rid: "K"}
+                hists.append({"id": "fault-restart-stat-%s-%d" % (obj, k), "seed": rid, "messages": m_, "outcomes": oc_, "strict": 0, "conc": (10, 20), "announce": (120, 120),
+                              "script": [("inject", 0), ("answer", "fifo"), ("termrestart",), ("advance", 130), ("advance", 130), ("nextdue", 0), ("nextdue", 0), ("answer", "fifo"), ("nextdue", 0), ("answer", "fifo")],
+                              "fault": {"role": "qmail-send", "call": "stat", "k": k, "what": "fail %d" % errno.EIO, "obj": obj}})
         for call, ks in (("open", (1, 2)), ("write", (1, 2)), ("fsync", (1, 2)), ("link", (1, 2)), ("read", (1, 3))):
             for k in ks:
                 fi += 1
